@@ -311,14 +311,23 @@ impl ProgramEntry {
 
 impl Entry for ProgramEntry {
     fn write<'a>(&'a self, writer: &mut impl EntryWriter<'a>) {
-        for op in &self.ops {
+        for (i, op) in self.ops.iter().enumerate() {
             match op {
                 POp::Timestamp(t) => writer.timestamp(*t),
                 POp::Config(c) => {
                     let c: &'a (dyn EntryConfig + Send + Sync) = &**c;
                     writer.config(c)
                 }
-                POp::Value(name, v) => writer.value(name.as_str(), v),
+                // names reach a writer borrowed (field names known at compile time) or owned (names
+                // assembled at run time, e.g. prefix + field): every other position hands over an
+                // owned String
+                POp::Value(name, v) => {
+                    if (name.len() + i) % 2 == 0 {
+                        writer.value(name.as_str(), v)
+                    } else {
+                        writer.value(name.clone(), v)
+                    }
+                }
             }
         }
     }
